@@ -5,7 +5,22 @@ sys.path.insert(0, os.path.join(os.path.dirname(os.path.abspath(__file__)), '..'
 import e1check
 
 
+def gen_bulk_release(rng, cid):
+    # directed family: several acquirers blocked on an empty semaphore, ONE release(n) with n >= the number of acquirers
+    # as the last operation of the program; whatever the schedule, every acquirer must have returned at the end
+    na = rng.weighted([(2, 4), (3, 3), (4, 2)])
+    n = na + rng.weighted([(0, 6), (1, 2)])
+    lines = [f'case {cid} kind=counting init=0 seed={rng.below(1 << 30)} strat={rng.weighted([(0, 4), (1, 3), (2, 3)])}']
+    for t in range(na):
+        lines.append(f'thread {t}: acq ;')
+    lines.append(f'thread {na}: rel {n} ;')
+    lines.append('endcase')
+    return '\n'.join(lines)
+
+
 def gen(rng, cid):
+    if rng.below(8) == 0:
+        return gen_bulk_release(rng, cid)
     k = rng.weighted([(2, 4), (3, 4), (4, 2), (5, 1)])
     kind = rng.weighted([('counting', 3), ('binary', 1)])
     init = rng.weighted([(0, 5), (1, 3), (2, 1), (3, 1)])
@@ -56,7 +71,7 @@ e1check.run(dict(
     prop='C08', model='sem', harness='e1/sem.cpp', bin='e1_sem', nontrivial=nontrivial, stats=stats,
     batches=[dict(model='sem', gen=gen, quick=1500, thorough=40000, extra=6000),
              dict(model='ssem', gen=gen_sliding, quick=1000, thorough=25000, extra=4000)],
-    rule='random programs (2-5 threads, 1-4 ops each over acquire/release(n)/try_acquire/try_acquire_for) on one counting or binary semaphore (random initial count) and, second batch, wait/try_wait/signal programs on one sliding_semaphore (random max_difference / lower_limit), PRNG schedules (uniform / priority / sticky); non-trivial = at least one thread enqueued on the condition variable; distinct = distinct (program, schedule seed) text',
+    rule='random programs (2-5 threads, 1-4 ops each over acquire/release(n)/try_acquire/try_acquire_for) on one counting or binary semaphore (random initial count; one case in eight is the directed family `k blocked acquirers, then one release(n >= k)`) and, second batch, wait/try_wait/signal programs on one sliding_semaphore (random max_difference / lower_limit), PRNG schedules (uniform / priority / sticky); non-trivial = at least one thread enqueued on the condition variable; distinct = distinct (program, schedule seed) text',
     assumptions=['sliding_semaphore::set_max_difference is not modelled (it changes the distance without notifying anybody)',
                  'the wake-up token of the verification agent stands for the suspend/resume of the real task agent (C02)'],
 ))
